@@ -339,24 +339,27 @@ func (m Manager) SetNodeResourceCapacity(ctx context.Context, nodename string, n
 				return resp, err
 			})
 
-			if err != nil {
-				for plugin, resp := range resps {
-					if resp == nil {
-						continue
-					}
-					rollbackPlugins = append(rollbackPlugins, plugin)
-					before[plugin.Name()] = resp.Before
-					after[plugin.Name()] = resp.After
+			// report what changed in any case: callers (calcium.SetNode) need `before` to undo the change
+			for plugin, resp := range resps {
+				if resp == nil {
+					continue
 				}
+				if err != nil {
+					rollbackPlugins = append(rollbackPlugins, plugin)
+				}
+				before[plugin.Name()] = resp.Before
+				after[plugin.Name()] = resp.After
+			}
+			if err != nil {
 				logger.Errorf(ctx, err, "failed to set node resource for node %+v", nodename)
 				return err
 			}
 			return nil
 		},
-		// rollback: set the rollback resource args in reverse
+		// rollback: write the previous capacity back (as a node resource, not as a request)
 		func(ctx context.Context) error {
 			_, err := call(ctx, rollbackPlugins, func(plugin plugins.Plugin) (*plugintypes.SetNodeResourceCapacityResponse, error) {
-				resp, err := plugin.SetNodeResourceCapacity(ctx, nodename, nil, before[plugin.Name()], false, false)
+				resp, err := plugin.SetNodeResourceCapacity(ctx, nodename, before[plugin.Name()], nil, false, true)
 				if err != nil {
 					logger.Errorf(ctx, err, "node %+v plugin %+v failed to rollback node resource capacity", nodename, plugin.Name())
 				}
